@@ -12,6 +12,8 @@ Sub-checks (``--only``):
          be the routine's logical time + latency (exact integer), never the
          send instant; outside routines now + latency (50 ms tolerance);
          None / negative latency -> time tag 1.
+  reuse  as nrt, but the program keeps a (nested) bundle element list and passes
+         the same object to send_bundle again at a later logical time.
   conv   SystemClock.elapsed_time_to_osc / osc_to_elapsed_time on a grid
          (monotone, mutually inverse within 2**-32 s), in both modes.
 
@@ -281,11 +283,20 @@ def run_nrt_program(prog):
     bld = Builder()
     log = []          # one record per attempted send, in call order
 
+    # bundle element lists the program keeps and sends more than once
+    shared = {k: bld.elements(spec) for k, spec in sorted(prog.get('shared', {}).items())}
+    pristine = clone(shared)
+
     def do_send(step, now):
         if step[0] == 'msg':
             m = bld.msg()
             rec = {'kind': 'msg', 'now': now, 'lat': 0, 'sent': [0, clone(m)], 'verdict': 'accept'}
             call = lambda: addr.send_msg(*clone(m))
+        elif step[0] == 'shared':
+            lat, key = step[1], step[2]
+            rec = {'kind': 'bundle', 'now': now, 'lat': lat, 'sent': [lat, *clone(pristine[key])],
+                   'verdict': verdict(lat, prog['shared'][key])}
+            call = lambda: addr.send_bundle(lat, *shared[key])     # the same objects every time
         else:
             lat, specs = step[1], step[2]
             els = bld.elements(specs)
@@ -335,9 +346,11 @@ def check_nrt(prog):
     fails = []
 
     def bad(key, what, observed=None, expected=None):
+        if prog.get('shared') and key in ('C07.nrt:time', 'C07.nrt:order', 'C07.nrt:raw'):
+            key = 'C07.nrt:reused-list'
         fails.append({'obligation': 'C07.nrt', 'key': key, 'what': what, 'input': prog,
                       'observed': observed, 'expected': expected,
-                      'replay': {'func': 'nrt', 'args': prog}})
+                      'replay': {'func': 'nrt', 'args': json.dumps(prog)}})
 
     expected = []      # (entry with absolute times, send instant) in send order
     for rec in log:
@@ -495,6 +508,45 @@ def run_nrt(rep):
     return fails
 
 
+def run_reuse(rep):
+    """Programs that keep a bundle element list and send the same object again
+    later: every send is stamped relative to its own send instant."""
+    rng = rep.rng
+    fixed = []
+    for spec in (['m'], ['m', ['b', 0.2, ['m']]], [['b', 0.2, ['m', ['b', 0.3, ['m']]]]],
+                 [['b', None, [['b', None, [['b', 0.5, ['m']]]]]]]):
+        for clock in (['system'], ['tempo', 2]):
+            fixed.append({'routines': [{'clock': clock, 'spawn': None, 'steps': [
+                ['wait', 1], ['shared', 0.1 if spec[0] == 'm' or spec[0][1] is not None else None, 'a'],
+                ['wait', 1], ['shared', 0.1 if spec[0] == 'm' or spec[0][1] is not None else None, 'a'],
+                ['wait', 0.5], ['shared', None, 'a']]}],
+                'shared': {'a': spec}, 'outside': [], 'funcs': [], 'tail': 0})
+    n = 200 if rep.tier == 'thorough' else 40
+    progs = list(fixed)
+    for _ in range(n):
+        prog = gen_program(rng)
+        prog['shared'] = {'a': gen_elements(rng, 3, None, 0.0), 'b': gen_elements(rng, 2, 0.2, 0.0)}
+        for r in prog['routines']:
+            for _ in range(rng.randint(1, 3)):
+                key = rng.choice('ab')
+                lat = rng.choice([None, -1] if key == 'a' else [0, 0.2])
+                r['steps'].insert(rng.randint(0, len(r['steps'])), ['shared', lat, key])
+        progs.append(prog)
+    fails = []
+    for prog in progs:
+        fails += check_nrt(prog)
+    rep.bounded(
+        name='reuse', function='NetAddr.send_bundle -> OscScore.add (non-real-time mode)',
+        bound='%d fixed programs (one element list of nesting depth 0-3 sent three times from a '
+              'routine on SystemClock / TempoClock(2)) + %d generated programs in which two kept '
+              'element lists are sent 1-3 times by every routine' % (len(fixed), n),
+        evaluations=len(progs), distinct_nontrivial=len({json.dumps(p, sort_keys=True) for p in progs}),
+        rule='same reference schedule as "nrt"; the program passes the same list objects to '
+             'send_bundle each time',
+        samples=[fixed[0], fixed[4], progs[-1]])
+    return fails
+
+
 # ---------------------------------------------------------------- conversions --
 
 def check_conv(to_osc, to_sec, xs, mode):
@@ -612,8 +664,9 @@ def rt_child(spec):
         fails.append({'obligation': 'C07.rt', 'key': key, 'what': what,
                       'input': {'seed': spec['seed'], 'jitter': spec['jitter'], 'program': prog},
                       'observed': observed, 'expected': expected,
-                      'replay': {'func': 'rt', 'args': {'seed': spec['seed'], 'jitter': spec['jitter'],
-                                                        'programs': spec['programs']}}})
+                      'replay': {'func': 'rt', 'args': json.dumps(
+                          {'seed': spec['seed'], 'jitter': spec['jitter'],
+                           'programs': spec['programs']})}})
 
     def check_send(rec, prog):
         """rec: what was sent, from where, and the datagrams it produced."""
@@ -946,6 +999,9 @@ def main(rep):
             fails += run_conv_nrt(rep)
         if wants(rep, 'nrt'):
             fails += run_nrt(rep)
+        if wants(rep, 'reuse'):
+            sc_nrt()
+            fails += run_reuse(rep)
         if rt is not None:
             fails += finish_rt(rep, *rt)
     finally:
@@ -956,13 +1012,14 @@ def main(rep):
     report_all(rep, fails)
     rep.note('left open: position of the tail marker relative to bundles whose latency carries them '
              'past end-of-run + tail; the root-node entry at the head of the score; last-bit rounding '
-             'of time tags; sub-bundles with latency None/<0 under a parent with latency <0; reuse of '
-             'one bundle list object for several sends')
+             'of time tags; sub-bundles with latency None/<0 under a parent with latency <0')
 
 
 def replay(case, rep):
     r = case.get('replay') or {}
     fn, args = r.get('func'), r.get('args')
+    if isinstance(args, str):          # deep programs are stored as JSON text
+        args = json.loads(args)
     if fn == 'nrt':
         sc_nrt()
         fails = check_nrt(args)
